@@ -23,7 +23,7 @@ CLAIMS = {
               'to 64 above each interval, all fence sets, boundary + seeded U/J immediates; the complete cross product in the '
               'thorough tier) are run through the real encoders and the model and must agree, each accepted word is decoded by '
               'the Lean specification and compared with the source operands, collisions are searched per mnemonic, and 6000+ '
-              'one-line programs go through assemble().'),
+              'one-line programs go through assemble(). Whole programs (C01Program.lean): assemble_instr32_decodes - in every successful assembly an instruction item contributes at its offset the bytes of a word that the specification decodes to the mnemonic, the registers after lookup and the immediate evaluated there, all 32-bit classes, both modes.'),
         note=TB + ' Registers given to the encoders directly are ints or ASCII strings.',
         ref='DESIGN.md §5 C01'),
     'C02': dict(
@@ -33,7 +33,7 @@ CLAIMS = {
               'through the real encoder, the Lean model and the Lean RVC specification (decode16 of the emitted halfword must '
               'be what the source named); in the reverse direction all 65 536 halfwords are decoded by the specification and '
               'the canonical text of each of the 28 461 legal ones must assemble to exactly that halfword, so accepted tuples '
-              'and legal halfwords correspond one-to-one. Theorems enc16_sound / enc16_inj / enc16_onto state the same for the model.'),
+              'and legal halfwords correspond one-to-one. Theorems enc16_sound / enc16_inj / enc16_onto state the same for the model. Whole programs (C01Program.lean, namespace C02): assemble_instr16_decodes - the same for all 27 RVC mnemonics, hand-written or produced by -c; the halfword is never a hint, reserved or illegal encoding.'),
         note=TB,
         ref='DESIGN.md §5 C02'),
     'C06': dict(
@@ -42,7 +42,7 @@ CLAIMS = {
         text=('Acceptance by the real encoders is compared, on ~2.2 M operand tuples reaching far beyond both ends of every '
               'interval, all residues of every scale, all register numbers and non-register spellings, with the specification\'s '
               'Legal predicate (written from the ISA manual and the instruction reference) and with the Lean model; the text path '
-              'checks that illegal lines are refused by an AssemblerError and legal ones assemble. Theorems tie model acceptance to Legal.'),
+              'checks that illegal lines are refused by an AssemblerError and legal ones assemble. Theorems tie model acceptance to Legal. Whole programs (C06Program.lean): unrepresentable_refused_program(16) - an instruction whose operands are not Legal, anywhere among good items, makes the whole assembly fail with the error on its line (no output), both modes; legal_instr_good + good_program_assembles - Legal literal instructions are accepted in both modes and a program of good items assembles.'),
         note=TB + ' CSR numbers follow the signed 12-bit I-immediate (documented nowhere else); jalr offsets must be even as documented.',
         ref='DESIGN.md §5 C06'),
     'C07': dict(
@@ -162,7 +162,7 @@ CLAIMS.update({
               'the text front end satisfies (textHooks_hooks). Each hypothesis is forced by a real counterexample (KF-A3, KF-B, KF-B2, KF-F, '
               'KF-G); EvenAligns is not needed. Explored: each generated program is assembled both ways by the real assembler; '
               'success without -c and failure with -c is a violation unless the failing line is in the known-finding classes KF-A3 / KF-B '
-              '(a compression rule consulted a label-dependent immediate that later left the compressed operand set) or KF-E (alignment to an odd boundary: distances do not keep their parity - found by the proof attempt; C04.compressed_never_refused shows that label-free and label-transfer decisions are otherwise never the cause).'),
+              '(a compression rule consulted a label-dependent immediate that later left the compressed operand set) or KF-E (alignment to an odd boundary: distances do not keep their parity - found by the proof attempt; C04.compressed_never_refused shows that label-free and label-transfer decisions are otherwise never the cause). Final form (C12Program2.lean): compress_preserves_success_program2 drops the 1 MiB span hypothesis (far-without / near-with call and tail followed through both runs); the thorough tier also builds the slow library BBSlow with a concrete 1 MiB witness evaluated in the kernel in both modes.'),
         note=TB,
         ref='DESIGN.md §5 C12'),
     'C20': dict(
@@ -208,7 +208,7 @@ CLAIMS.update({
               'erase/set-address/write operation is given a non-OK status - any number of injections - the run exits non-zero, never prints done, '
               'and the exit message is that of the FIRST failing operation (eraseFailed addr status / addrFailed addr status / writeFailed addr status), for an error status reported with or without the dfuERROR state (two fault flavours). Tie: '
               'the real cli_main against the Lean device with each error status 1..15 injected at every erase/write/set-address step of runs of '
-              '<= 4 pages (all single, all double for <= 2 pages), oversize lengths size+1..size+2048 and 2*size for all variants.'),
+              '<= 4 pages (all single, all double for <= 2 pages), oversize lengths size+1..size+2048 and 2*size for all variants. The device specification has two fault flavours (error status with dfuERROR; error status while the state stays dfuDNLOAD_IDLE): device_error_not_done quantifies over both at erase, set-address and write steps; extending the device this way exposed the missing status check after set-address in the real host (fixed: bfa32d3), status_only_set_address_stops replays that schedule in the kernel.'),
         note=TB + ' Set-address failures surface as a raw USBError traceback (exit 1, no done!) - the property names erase and write statuses only.',
         ref='DESIGN.md §5 C19'),
 })
